@@ -930,6 +930,39 @@ pub fn projected_grids(rep: &Report) {
                     }
                 }
             }
+            // through the operator: forward and back again (the corrections of a projected grid stay in metres)
+            if bands <= 2 {
+                let mut ctx = GridCtx::default();
+                let name = if bands == 1 { "p.geoid" } else { "p.datum" };
+                // (a smooth version of the grid: the inverse is a fixed-point iteration of ten rounds, which needs
+                // corrections that change by a small fraction of their size from node to node, as real grids do)
+                let smooth = move |r: usize, c: usize, b: usize| 0.01 * node_value(77 + bands as u32, r, c, b);
+                let Ok(smooth_grid) = BaseGrid::gravsoft(gravsoft_text(g, bands, &smooth, TextLayout::RowPerLine).as_bytes()) else { continue };
+                ctx.add_grid(name, Arc::new(smooth_grid));
+                let def = format!("gridshift grids={name}");
+                let Ok(op) = ctx.op(&def) else {
+                    rep.violation("gridshift on a projected grid cannot be instantiated", json!({"geometry": label, "bands": bands}));
+                    continue;
+                };
+                for r4 in 1..(4 * (rows - 1)) {
+                    for c4 in 1..(4 * (cols - 1)) {
+                        let (n, e) = (g.lat_n - 0.25 * r4 as f64 * g.dlat, g.lon_w + 0.25 * c4 as f64 * g.dlon);
+                        rep.eval(1);
+                        let mut d = [Coor4D([e, n, 10., 2000.])];
+                        let nf = ctx.apply(op, Fwd, &mut d).unwrap_or(usize::MAX);
+                        let fwd = d[0];
+                        let ni = ctx.apply(op, Inv, &mut d).unwrap_or(usize::MAX);
+                        let err = (d[0][0] - e).hypot(d[0][1] - n).max((d[0][2] - 10.).abs());
+                        if nf != 1 || ni != 1 || !(err <= 1e-6) {
+                            rep.violation(
+                                &format!("gridshift on a projected grid: the inverse does not undo the forward shift / {label}"),
+                                json!({"geometry": format!("{g:?}"), "bands": bands, "input": [e, n, 10., 2000.], "forward": fwd.0, "back": d[0].0, "counts": [nf, ni], "error_m": err}),
+                            );
+                            break;
+                        }
+                    }
+                }
+            }
         }
     }
 }
